@@ -887,4 +887,58 @@ theorem tag_startLex (cfg : Cfg) : Y_startLex_tag cfg := by
             rw [q1]; exact J2_congr cs hJb
           exact ⟨fun _ _ => ⟨q2.idle hi3, hJ4⟩, fun e he => by cases he⟩
 
+/-! ## `handle_tag` from `auxPend` -/
+
+theorem afterVm_congr {s1 s2 : St} (h : EqT s1 s2) (n : Nat) (vm' : SelVM.Vm) (infos : List SelVM.MatchInfo) :
+    (s2.afterVm n vm' infos).2 = (s1.afterVm n vm' infos).2 ∧ EqT (s1.afterVm n vm' infos).1 (s2.afterVm n vm' infos).1 := by
+  unfold St.afterVm
+  rw [h.disp]
+  cases startMatchingInfos s1.disp infos with
+  | error p => exact ⟨rfl, h⟩
+  | ok d =>
+    dsimp only
+    rw [h.descs, h.ord]
+    exact ⟨rfl, ⟨rfl, rfl, rfl, rfl, h.payloads, rfl, h.fault, h.inv⟩⟩
+
+/-- **the aux-info continuation respects `EqT`** -/
+theorem auxInfo_congr {s1 s2 : St} (h : EqT s1 s2) (info : AuxInfo) :
+    (auxInfo s2 info).2 = (auxInfo s1 info).2 ∧ EqT (auxInfo s1 info).1 (auxInfo s2 info).1 := by
+  unfold auxInfo
+  rw [h.vm, h.pending]
+  cases s1.vm with
+  | none => exact ⟨rfl, h⟩
+  | some vm =>
+    cases s1.pending with
+    | none => exact ⟨rfl, h⟩
+    | some req =>
+      dsimp only
+      cases auxConv info with
+      | none => exact ⟨rfl, h⟩
+      | some aux =>
+        dsimp only
+        cases req.resume vm aux with
+        | error p => exact ⟨rfl, h⟩
+        | ok r => exact afterVm_congr h _ _ _
+
+/-- `adjust_capture_flags_for_tag_lexeme` with the aux-info request pending, on a start-tag lexeme -/
+theorem adjust_aux_full {cfg : Cfg} (d : Disp (FullSt cfg)) (hp : d.pendingAux = true) (input : Bytes) (lx : TagLexeme)
+    (name : Range) (h : Nat) (ns : Model.Ns) (as : List AttrOutline) (sc : Bool) (ho : lx.outline = .startTag name h ns as sc) :
+    (d.adjustFlagsForTag (fullCtl cfg) input lx).1.ctl.1 = (auxInfo d.ctl.1 ⟨input, as, sc⟩).1 ∧
+    (d.adjustFlagsForTag (fullCtl cfg) input lx).1.pendingAux = false ∧
+    (d.adjustFlagsForTag (fullCtl cfg) input lx).1.gotFlagsFromHint = d.gotFlagsFromHint ∧
+    (match (auxInfo d.ctl.1 ⟨input, as, sc⟩).2 with
+     | .ok f => (d.adjustFlagsForTag (fullCtl cfg) input lx).2 = .ok () ∧ (d.adjustFlagsForTag (fullCtl cfg) input lx).1.flags = f
+     | .error e => (d.adjustFlagsForTag (fullCtl cfg) input lx).2 = .error e) := by
+  unfold Disp.adjustFlagsForTag
+  rw [if_pos hp]
+  simp only [ho]
+  unfold Disp.answerAux
+  have a2 : ((fullCtl cfg).auxInfo d.ctl ⟨input, as, sc⟩).2 = (auxInfo d.ctl.1 ⟨input, as, sc⟩).2 := rfl
+  have a1 : ((fullCtl cfg).auxInfo d.ctl ⟨input, as, sc⟩).1.1 = (auxInfo d.ctl.1 ⟨input, as, sc⟩).1 := rfl
+  dsimp only
+  rw [a2]
+  cases hx : (auxInfo d.ctl.1 ⟨input, as, sc⟩).2 with
+  | ok f => exact ⟨a1, rfl, rfl, rfl, rfl⟩
+  | error e => exact ⟨a1, rfl, rfl, rfl⟩
+
 end LolHtml.Thm.Full
